@@ -534,3 +534,327 @@ Proof.
   destruct (internal_make c 0 KObj true true w1) as [w2|e w2]; simpl in *; [|exact I2].
   destruct I2 as [IC RN RL IF IA IR]. constructor; simpl; auto.
 Qed.
+
+Lemma stopped_world_set_reg c w b : stopped_world c (set_reg w b) = set_reg (stopped_world c w) b.
+Proof. reflexivity. Qed.
+
+Lemma inv_qstart_body f p w :
+  Inv w -> reg w = true -> Inv (wof (qstart_body f p w)).
+Proof.
+  intros I HR. unfold qstart_body, with_cur at 1.
+  destruct (cur w) as [c|] eqn:Hc; [|exact I].
+  pose proof (inv_ctx_start c f w I Hc (fun _ => HR)) as I1.
+  destruct (ctx_start c f w) as [w1|e w1]; simpl in *; [|exact I1].
+  assert (forall r, Inv (wof (with_cur w1 (fun c0 w0 => connect c0 r w0)))) as K.
+  { intros r. unfold with_cur. destruct (cur w1) as [c1|] eqn:Hc1; [|exact I1]. apply inv_connect; assumption. }
+  destruct f; try apply K; destruct p; try apply K; exact I1.
+Qed.
+
+Lemma inv_qstart f p w : Inv w -> md w = Single -> Inv (wof (qstart f p w)).
+Proof.
+  intros I MS. unfold qstart. destruct (reg w) eqn:R; [exact I|].
+  assert (forall c, cur w = Some c -> active c = false) as H.
+  { intros c Hc. destruct (active c) eqn:A; [|reflexivity]. rewrite (i_reg _ I MS c Hc A) in R. discriminate. }
+  pose proof (inv_new_ctx w I H) as I1.
+  destruct (new_ctx w) as [w1|e w1]; simpl in *; [|exact I1].
+  pose proof (inv_qstart_body f p (set_reg w1 true) (Inv_set_reg_true _ I1) eq_refl) as I3.
+  destruct (qstart_body f p (set_reg w1 true)) as [w3|e w3]; simpl in *; [exact I3|].
+  destruct (vr w); [|exact I3]. simpl.
+  destruct (cur w3) as [c|] eqn:Hc; simpl.
+  - destruct (active c) eqn:A; simpl.
+    + try (change (cur (set_reg w3 false)) with (cur w3)); try rewrite Hc; try rewrite A.
+      erewrite ctx_stop_spec; [ | exact (i_ctx _ I3 _ Hc) | exact A ]. simpl wof.
+      rewrite stopped_world_set_reg. apply Inv_set_cur_none. apply Inv_set_reg_false.
+      * pose proof (inv_ctx_stop c w3 I3 Hc) as I4.
+        erewrite ctx_stop_spec in I4; [ exact I4 | exact (i_ctx _ I3 _ Hc) | exact A ].
+      * intros c0 H0. unfold stopped_world in H0. simpl in H0. inv_some. reflexivity.
+    + try (change (cur (set_reg w3 false)) with (cur w3)); try rewrite Hc; try rewrite A; simpl.
+      apply Inv_set_cur_none. apply Inv_set_reg_false; [exact I3|]. intros c0 H0. congruence.
+  - try (change (cur (set_reg w3 false)) with (cur w3)); try rewrite Hc; simpl.
+    apply Inv_set_reg_false; [exact I3|]. intros c0 H0. congruence.
+Qed.
+
+Lemma inv_qstop w : Inv w -> Inv (wof (qstop w)).
+Proof.
+  intros I. unfold qstop. destruct (reg w); simpl; [|exact I].
+  unfold with_cur. destruct (cur w) as [c|] eqn:Hc; [|exact I].
+  destruct (active c) eqn:A.
+  - erewrite ctx_stop_spec; [ | exact (i_ctx _ I _ Hc) | exact A ]. simpl.
+    apply Inv_set_reg_false.
+    + pose proof (inv_ctx_stop c w I Hc) as I4.
+      erewrite ctx_stop_spec in I4; [ exact I4 | exact (i_ctx _ I _ Hc) | exact A ].
+    + intros c0 H0. unfold stopped_world in H0. simpl in H0. inv_some. reflexivity.
+  - rewrite ctx_stop_inactive by exact A. exact I.
+Qed.
+
+Lemma is_direct_md w : is_direct w = true -> md w = Direct.
+Proof. unfold is_direct. destruct (md w); [reflexivity | discriminate]. Qed.
+Lemma is_direct_false w : is_direct w = false -> md w = Single.
+Proof. unfold is_direct. destruct (md w); [discriminate | reflexivity]. Qed.
+
+Theorem inv_step w o : Inv w -> Inv (fst (step w o)).
+Proof.
+  intros I. unfold step.
+  destruct o as [ |f| |f p| |n k a b|n|n|i|b|r].
+  - destruct (is_direct w) eqn:D; simpl; [|exact I].
+    destruct (cur w) as [c|] eqn:Hc.
+    + destruct (active c) eqn:A; simpl; [exact I|]. apply inv_new_ctx; [exact I|].
+      intros c0 H0. congruence.
+    + simpl. apply inv_new_ctx; [exact I|]. intros c0 H0. congruence.
+  - destruct (is_direct w) eqn:D; simpl; [|exact I].
+    destruct (cur w) as [c|] eqn:Hc; simpl; [|exact I].
+    apply inv_ctx_start; auto. intros MS. rewrite (is_direct_md _ D) in MS. discriminate.
+  - destruct (is_direct w) eqn:D; simpl; [|exact I].
+    destruct (cur w) as [c|] eqn:Hc; simpl; [|exact I]. apply inv_ctx_stop; auto.
+  - destruct (is_direct w) eqn:D; simpl; [exact I|]. apply inv_qstart; [exact I | apply is_direct_false; exact D].
+  - destruct (is_direct w) eqn:D; simpl; [exact I|]. apply inv_qstop; exact I.
+  - destruct (is_direct w) eqn:D.
+    + destruct (cur w) as [c|] eqn:Hc; simpl; [|exact I]. apply inv_make; auto.
+    + destruct (reg w); simpl; [|exact I].
+      destruct (cur w) as [c|] eqn:Hc; simpl; [|exact I]. apply inv_make; auto.
+  - destruct (cur w) as [c|] eqn:Hc; simpl; [|exact I]. apply inv_remove; auto.
+  - destruct (n =? 0); simpl; [exact I|].
+    destruct (cur w) as [c|] eqn:Hc; simpl; [|exact I]. apply inv_get; auto.
+  - exact I.
+  - destruct (cur w) as [c|] eqn:Hc; simpl; [|exact I]. apply inv_addh; auto.
+  - destruct (cur w) as [c|] eqn:Hc; simpl; [|exact I]. apply inv_connect; auto.
+Qed.
+
+Theorem inv_run ops : forall w, Inv w -> Inv (fst (run w ops)).
+Proof.
+  induction ops as [|o ops IH]; intros w I; simpl; [exact I|].
+  pose proof (inv_step w o I) as I1. destruct (step w o) as [w1 x]. simpl in I1.
+  specialize (IH w1 I1). destruct (run w1 ops) as [w2 xs]. exact IH.
+Qed.
+
+Theorem reachable_inv m v ops : Inv (fst (run (init m v) ops)).
+Proof. apply inv_run. apply Inv_init. Qed.
+
+(* ================= the property lemmas ============================================================ *)
+
+(* C12_unique *)
+Lemma unique_names w c : Inv w -> cur w = Some c ->
+  NoDup (names (objmap c)) /\
+  (forall n s1 s2, lookup n (objmap c) = Some s1 -> In (n, s2) (objmap c) -> s1 = s2).
+Proof.
+  intros I Hc. pose proof (t_nodup _ _ _ _ _ (i_ctx _ I _ Hc)) as ND. split; [exact ND|].
+  generalize ND. clear. induction (objmap c) as [|[k x] m IH]; simpl; intros ND n s1 s2 L H; [tauto|].
+  inversion ND as [|? ? Hk ND']; subst. destruct (Nat.eqb n k) eqn:E.
+  - apply Nat.eqb_eq in E. subst k. inversion L; subst. destruct H as [H|H]; [congruence|].
+    exfalso. apply Hk. change n with (fst (n, s2)). apply in_map. exact H.
+  - destruct H as [H|H]; [inversion H; subst; rewrite Nat.eqb_refl in E; discriminate|].
+    eapply IH; eauto.
+Qed.
+
+Lemma duplicate_refused c n k a b w :
+  valid n = true -> active c = true -> In n (names (objmap c)) -> make c n k a b w = Raise EDup w.
+Proof.
+  intros V A H. unfold make, internal_make. rewrite V, A. simpl.
+  apply memn_In in H. rewrite H. reflexivity.
+Qed.
+
+(* C12_rollback *)
+Lemma rollback_clean w c n k b w' :
+  Inv w -> cur w = Some c -> make c n k false b w = Raise ECtor w' ->
+  ~ In n (names (objmap c)) /\ cur w' = Some c /\ rel w' = rel w /\ hruns w' = hruns w /\
+  proxies w' = proxies w /\ nextoid w' = S (nextoid w).
+Proof.
+  intros I Hc. pose proof (i_ctx _ I _ Hc) as T. unfold make, internal_make.
+  destruct (negb (valid n)); [discriminate|].
+  destruct (negb (active c) && negb (n =? 0)); [discriminate|].
+  destruct (memn n (names (objmap c))) eqn:M; [discriminate|]. apply memn_false in M.
+  rewrite rollback_spec; [ | exact M | rewrite (t_thr _ _ _ _ _ T); apply notin_lt; exact (t_lt _ _ _ _ _ T) ].
+  intros H. inversion H; subst. simpl. repeat split; auto.
+Qed.
+
+(* C12_remove *)
+Lemma remove_clean w c n w' :
+  Inv w -> cur w = Some c -> remove c n w = Ret w' ->
+  exists o c', lookup n (objmap c) = Some (Live o) /\ cur w' = Some c' /\
+    ~ In n (names (objmap c')) /\ ~ In n (handlers c') /\ ~ In o (cthreads c') /\
+    rel w' = rel w ++ [o] /\ count_occ Nat.eq_dec (rel w') o = 1.
+Proof.
+  intros I Hc. pose proof (i_ctx _ I _ Hc) as T. unfold remove.
+  destruct (lookup n (objmap c)) as [[|o]|] eqn:L; try discriminate.
+  rewrite manager_stop_spec. intros H. inversion H; subst. clear H.
+  exists o. eexists. split; [reflexivity|]. split; [reflexivity|]. simpl.
+  split; [ rewrite remk_setk, names_remk, In_remn; tauto |].
+  split; [ rewrite In_remn; tauto |].
+  split; [ rewrite In_remn; tauto |].
+  split; [ reflexivity |].
+  rewrite count_occ_app. simpl. destruct (Nat.eq_dec o o); [|congruence].
+  rewrite (proj1 (count_occ_not_In Nat.eq_dec (rel w) o)); [reflexivity|].
+  apply (t_notrel _ _ _ _ _ T). apply live_In_oids with n. apply lookup_In. exact L.
+Qed.
+
+(* C12_stop_reclaims *)
+Lemma call_dead w : (forall c, cur w = Some c -> handlers c = []) ->
+  forall i, call w i = OSkip \/ call w i = OExc EDelivery.
+Proof.
+  intros H i. unfold call. destruct (nth_error (proxies w) i) as [[ci n]|]; [|left; reflexivity]. right.
+  destruct (cur w) as [c|] eqn:Hc; [|reflexivity]. destruct (ci =? cid c); [|reflexivity].
+  unfold reachable_obj. rewrite (H c eq_refl). reflexivity.
+Qed.
+
+Lemma stop_reclaims w c :
+  Inv w -> cur w = Some c -> active c = true ->
+  exists w' c', ctx_stop c w = Ret w' /\ cur w' = Some c' /\
+    (forall o, In o (live_oids (objmap c)) -> count_occ Nat.eq_dec (rel w') o = 1) /\
+    rel w' = rel w ++ live_oids (objmap c) /\
+    hruns w' = hruns w ++ map fst (shs c) /\
+    objmap c' = [] /\ handlers c' = [] /\ cthreads c' = [] /\
+    router c' = false /\ tcp c' = false /\ udp c' = false /\ conn c' = false /\ active c' = false /\
+    (forall f, ctx_start c' f w' = Raise EUsage w') /\
+    ctx_stop c' w' = Raise EUsage w' /\
+    (forall i, call w' i = OSkip \/ call w' i = OExc EDelivery).
+Proof.
+  intros I Hc A. pose proof (i_ctx _ I _ Hc) as T.
+  exists (stopped_world c w), (stopped_ctx c).
+  split; [ eapply ctx_stop_spec; eauto |]. split; [reflexivity|].
+  split.
+  { intros o Ho. pose proof (inv_ctx_stop c w I Hc) as I'. erewrite ctx_stop_spec in I'; eauto. simpl in I'.
+    apply (proj1 (NoDup_count_occ' Nat.eq_dec _) (i_relnd _ I')). simpl. apply in_or_app. right. exact Ho. }
+  simpl. repeat (split; [reflexivity|]).
+  split; [ intros f; unfold ctx_start; simpl; rewrite (i_active _ I _ Hc A); reflexivity |].
+  split; [ reflexivity |].
+  apply call_dead. simpl. intros c0 H0. inv_some. reflexivity.
+Qed.
+
+(* C12_failed_start *)
+Lemma new_ctx_props w :
+  exists w1 c1, new_ctx w = Ret w1 /\ cur w1 = Some c1 /\ active c1 = false /\ used c1 = false /\
+    router c1 = false /\ vr w1 = vr w /\ md w1 = md w /\ reg w1 = reg w /\
+    lport w1 = match cur w with Some c => tcp c || lport w | None => lport w end.
+Proof.
+  unfold new_ctx, abandon. destruct (cur w) as [c|]; unfold internal_make; simpl;
+    (eexists; eexists; split; [reflexivity|]; simpl; repeat split; reflexivity).
+Qed.
+
+Lemma failed_start_direct w c f :
+  Inv w -> vr w = Fixed -> cur w = Some c -> active c = false -> used c = false -> router c = false ->
+  start_fails f w = true ->
+  exists w', ctx_start c f w = Raise EOSError w' /\
+    (exists c', cur w' = Some c' /\ objmap c' = [] /\ handlers c' = [] /\ cthreads c' = [] /\
+                router c' = false /\ tcp c' = false /\ udp c' = false /\ conn c' = false /\ active c' = false) /\
+    (forall o, In o (live_oids (objmap c)) -> count_occ Nat.eq_dec (rel w') o = 1) /\
+    (* nothing prevents starting a NEW context *)
+    exists w1 c1 w2, new_ctx w' = Ret w1 /\ cur w1 = Some c1 /\ ctx_start c1 FNone w1 = Ret w2.
+Proof.
+  intros I V Hc A U R F. pose proof (i_ctx _ I _ Hc) as T.
+  exists (aborted_world c w). split; [eapply ctx_start_fixed_fail; eauto|].
+  split; [eexists; split; [reflexivity|]; simpl; auto 10|].
+  split.
+  { intros o Ho.
+    assert (NoDup (rel (aborted_world c w))) as ND.
+    { simpl. apply nodup_app; [exact (i_relnd _ I) | exact (t_onodup _ _ _ _ _ T) |].
+      intros x Hx. exact (t_notrel _ _ _ _ _ T x Hx). }
+    apply (proj1 (NoDup_count_occ' Nat.eq_dec _) ND). simpl. apply in_or_app. right. exact Ho. }
+  destruct (new_ctx_props (aborted_world c w)) as [w1 [c1 [E [C1 [A1 [U1 [R1 [V1 [_ [_ L1]]]]]]]]]].
+  exists w1, c1. eexists. split; [exact E|]. split; [exact C1|].
+  apply ctx_start_ok; auto. unfold start_fails. rewrite L1. simpl. destruct (i_fixed _ I V) as [LP _]. exact LP.
+Qed.
+
+Lemma qstart_clean w p :
+  reg w = false -> cur w = None -> lport w = false -> exists w', qstart FNone p w = Ret w'.
+Proof.
+  intros R C L. unfold qstart. rewrite R.
+  destruct (new_ctx_props w) as [w1 [c1 [E [C1 [A1 [U1 [R1 [_ [_ [_ L1]]]]]]]]]]. rewrite C in L1.
+  rewrite E. simpl bind. unfold qstart_body, with_cur at 1. simpl cur. rewrite C1.
+  rewrite ctx_start_ok; auto; [ | unfold start_fails; simpl; congruence ].
+  simpl. destruct p; [|eexists; reflexivity].
+  unfold with_cur, connect. simpl. eexists; reflexivity.
+Qed.
+
+Lemma failed_qstart_fixed w f p e w' :
+  Inv w -> md w = Single -> vr w = Fixed -> reg w = false -> qstart f p w = Raise e w' ->
+  reg w' = false /\ cur w' = None /\ lport w' = false.
+Proof.
+  intros I MS V R. unfold qstart. rewrite R.
+  assert (forall c, cur w = Some c -> active c = false) as H.
+  { intros c Hc. destruct (active c) eqn:A; [|reflexivity]. rewrite (i_reg _ I MS c Hc A) in R. discriminate. }
+  pose proof (inv_new_ctx w I H) as I1.
+  destruct (new_ctx_props w) as [w1 [c1 [E [C1 [A1 [U1 [R1 [V1 [_ [_ L1]]]]]]]]]].
+  rewrite E in I1 |- *. simpl in I1. simpl bind.
+  assert (lport w1 = false) as LP.
+  { rewrite L1. destruct (i_fixed _ I V) as [LP HC]. destruct (cur w) as [c|] eqn:Hc; [|exact LP].
+    destruct (HC c eq_refl (H c eq_refl)) as [TC _]. rewrite TC, LP. reflexivity. }
+  pose proof (i_ctx _ I1 _ C1) as T1.
+  rewrite V. unfold qstart_body, with_cur at 1. simpl cur. rewrite C1.
+  destruct (start_fails f (set_reg w1 true)) eqn:F.
+  - erewrite ctx_start_fixed_fail; eauto; [ | simpl; congruence ]. simpl.
+    intros K. inversion K; subst. simpl. auto.
+  - rewrite ctx_start_ok by auto. simpl bind.
+    unfold start_fails in F. simpl in F.
+    destruct f; try discriminate.
+    + destruct p; [unfold with_cur, connect; simpl; discriminate | discriminate].
+    + unfold with_cur, connect. simpl.
+      erewrite ctx_stop_spec; [ | simpl; exact T1 | reflexivity ].
+      simpl. intros K. inversion K; subst. simpl. auto.
+Qed.
+
+(* the tree as it is: after a failed qmi.start nothing ever gets the singleton going again *)
+Definition Stuck (w : world) : Prop :=
+  md w = Single /\ reg w = true /\ exists c, cur w = Some c /\ active c = false /\ used c = false /\ router c = true.
+
+Lemma stuck_step w o : Stuck w ->
+  Stuck (fst (step w o)) /\
+  (forall f p, o = QStart f p -> snd (step w o) = OExc EUsage) /\
+  (o = QStop -> snd (step w o) = OExc EUsage).
+Proof.
+  intros [MS [R [c [Hc [A [U RO]]]]]].
+  assert (is_direct w = false) as D by (unfold is_direct; rewrite MS; reflexivity).
+  assert (Stuck w) as S0 by (repeat split; auto; exists c; auto).
+  unfold step. rewrite D, Hc, R. simpl.
+  destruct o as [ |f| |f p| |n k a b|n|n|i|b|r]; simpl; try (split; [exact S0 | split; [intros; discriminate | intros; discriminate]]).
+  - (* QStart *) unfold qstart. rewrite R. simpl. split; [exact S0|]. split; [reflexivity | discriminate].
+  - (* QStop *) unfold qstop. rewrite R. simpl. unfold with_cur.
+    destruct (cur w) as [c0|] eqn:Hc0; [|discriminate]. inversion Hc; subst c0.
+    rewrite ctx_stop_inactive by exact A. simpl.
+    split; [exact S0|]. split; [discriminate | reflexivity].
+  - (* Make *) split; [|split; discriminate]. unfold make, internal_make. rewrite A. simpl.
+    destruct (valid n) eqn:Vn; simpl; [|exact S0].
+    destruct (n =? 0) eqn:E0; simpl; [|exact S0].
+    apply Nat.eqb_eq in E0. subst. discriminate.
+  - (* Remove *) split; [|split; discriminate]. unfold remove.
+    destruct (lookup n (objmap c)) as [[|o]|]; simpl; try exact S0.
+    rewrite manager_stop_spec. simpl. repeat split; auto. eexists. split; [reflexivity|]. simpl. auto.
+  - (* Get *) split; [|split; discriminate]. destruct (n =? 0); simpl; [exact S0|]. unfold get.
+    destruct (reachable_obj c 0); simpl; [|exact S0].
+    destruct (lookup n (objmap c)) as [[|o]|]; simpl; try exact S0.
+  - (* AddH *) split; [|split; discriminate]. repeat split; auto. eexists. split; [reflexivity|]. simpl. auto.
+  - (* Connect *) split; [|split; discriminate]. unfold connect. rewrite A. simpl. exact S0.
+Qed.
+
+Lemma stuck_run ops : forall w, Stuck w ->
+  Forall2 (fun o x => (forall f p, o = QStart f p -> x = OExc EUsage) /\ (o = QStop -> x = OExc EUsage))
+          ops (snd (run w ops)).
+Proof.
+  induction ops as [|o ops IH]; intros w S; simpl; [constructor|].
+  destruct (stuck_step w o S) as [S1 [H1 H2]]. destruct (step w o) as [w1 x]. simpl in *.
+  specialize (IH w1 S1). destruct (run w1 ops) as [w2 xs]. simpl in *. constructor; auto.
+Qed.
+
+Lemma stuck_after_failed_qstart :
+  Stuck (fst (step (init Single Current) (QStart FTcp false))) /\
+  snd (step (init Single Current) (QStart FTcp false)) = OExc EOSError.
+Proof. vm_compute. repeat split; auto. eexists. repeat split. Qed.
+
+Lemma failed_start_singleton_fixed : forall w f p e w',
+  Inv w -> md w = Single -> vr w = Fixed -> reg w = false -> qstart f p w = Raise e w' ->
+  (reg w' = false /\ cur w' = None /\ lport w' = false) /\
+  forall p', exists w'', qstart FNone p' w' = Ret w''.
+Proof.
+  intros w f p e w' I MS V R H.
+  pose proof (failed_qstart_fixed w f p e w' I MS V R H) as K. split; [exact K|].
+  destruct K as [K1 [K2 K3]]. intros p'. exact (qstart_clean w' p' K1 K2 K3).
+Qed.
+
+Lemma failed_start_singleton_refuted :
+  exists o, snd (step (init Single Current) o) = OExc EOSError /\
+    forall ops,
+      Forall2 (fun o x => (forall f p, o = QStart f p -> x = OExc EUsage) /\ (o = QStop -> x = OExc EUsage))
+              ops (snd (run (fst (step (init Single Current) o)) ops)).
+Proof.
+  exists (QStart FTcp false). destruct stuck_after_failed_qstart as [S E]. split; [exact E|].
+  intros ops. exact (stuck_run ops _ S).
+Qed.
